@@ -521,17 +521,41 @@ func propC19(c *Ctx) {
 			default:
 				return
 			}
-			if _, isC := size.(*ssa.Const); isC {
-				return
+			// judge decides one (function, site, size value); a size that is a plain
+			// parameter of an unexported helper is judged at each of the helper's
+			// call sites instead (the bound tests live in the caller)
+			var judge func(fn *ssa.Function, at ssa.Instruction, size ssa.Value, depth int)
+			judge = func(fn *ssa.Function, at ssa.Instruction, size ssa.Value, depth int) {
+				if _, isC := size.(*ssa.Const); isC {
+					return
+				}
+				if p, isP := size.(*ssa.Parameter); isP && depth < 3 && fn.Object() != nil && !fn.Object().Exported() && fn.Signature.Recv() == nil {
+					r := rangeAt(size, at.Block(), pb)
+					if cs := l.RealCallers(fn); len(cs) > 0 && !l.AddressTaken(fn) && !(r.lo >= 0 && sizeBounded(size, r, pb)) {
+						pi := -1
+						for k, q := range fn.Params {
+							if q == p {
+								pi = k
+							}
+						}
+						for _, ci := range cs {
+							if a := ci.Common().Args; pi >= 0 && pi < len(a) {
+								judge(ci.Parent(), ci, a[pi], depth+1)
+							}
+						}
+						return
+					}
+				}
+				r := rangeAt(size, at.Block(), pb)
+				if isInputLen(size, pb) {
+					return // sized by data already in memory
+				}
+				key := fmt.Sprintf("%s | %s %s", fnName(fn), what, describe(size))
+				ok := r.lo >= 0 && sizeBounded(size, r, pb)
+				c.Check(rs, key, l.Pos(at.Pos()), ok, fmt.Sprintf("size in [%s,%s] or bounded by data in memory", showBound(r.lo), showBound(r.hi)),
+					fmt.Sprintf("size range [%s,%s]: not bounded above by a constant or by data already in memory (or possibly negative)", showBound(r.lo), showBound(r.hi)))
 			}
-			r := rangeAt(size, ins.Block(), pb)
-			if isInputLen(size, pb) {
-				return // sized by data already in memory
-			}
-			key := fmt.Sprintf("%s | %s %s", fnName(fn), what, describe(size))
-			ok := r.lo >= 0 && sizeBounded(size, r, pb)
-			c.Check(rs, key, l.Pos(ins.Pos()), ok, fmt.Sprintf("size in [%s,%s] or bounded by data in memory", showBound(r.lo), showBound(r.hi)),
-				fmt.Sprintf("size range [%s,%s]: not bounded above by a constant or by data already in memory (or possibly negative)", showBound(r.lo), showBound(r.hi)))
+			judge(fn, ins, size, 0)
 		})
 	}
 
